@@ -229,8 +229,17 @@ def _set_regimen(obj, spec):
     import myokit
     if spec['protocol'] is not None:
         p = myokit.Protocol()
-        for lvl, s, d in spec['protocol']:
+        evs = spec['protocol']
+        if len(evs) >= 2:
+            # the user's protocol object is passed, extended by a further event and passed again
+            for lvl, s, d in evs[:-1]:
+                p.add(myokit.ProtocolEvent(lvl, s, d))
+            obj.set_dosing_regimen(p)
+            lvl, s, d = evs[-1]
             p.add(myokit.ProtocolEvent(lvl, s, d))
+        else:
+            for lvl, s, d in evs:
+                p.add(myokit.ProtocolEvent(lvl, s, d))
         obj.set_dosing_regimen(p)
     else:
         r = spec['reg']
